@@ -1,5 +1,6 @@
 import TTModel.FS
 import TTGen.C18_SavePlan
+import TTGen.C18_Callers
 /-!
 # C18 — a crash while writing a checkpoint never loses the last good checkpoint
 
@@ -97,5 +98,26 @@ example : CkInv ⟨.complete, .absent, .absent⟩ ∧
 theorem completed_write_installs :
     ∀ s ∈ allStates, CkInv s → (runProg defaultFlags s prog prog.depth).name = .complete := by
   decide
+
+/-! ### the callers
+
+`TTGen.C18_Callers.callSites` is regenerated from every call site of `save_parameters` /
+`save_full_state` in the library. -/
+open TTGen.C18_Callers in
+/-- the scan of the call sites succeeded -/
+theorem callers_scanned : TTGen.C18_Callers.scanOk = true := by decide
+
+open TTGen.C18_Callers in
+/-- **callers_use_safe_flags**: every call site that rewrites the run's checkpoint file reaches
+`save_parameters` with exactly the flags the crash-safety theorems are about
+(`safely = True`, `overwrite = False`), statically — no caller can divert a checkpoint write
+onto the direct-write branch. -/
+theorem callers_use_safe_flags :
+    ∀ c ∈ callSites, c.sameFile = true → c.safely = some true ∧ c.overwrite = some false := by
+  decide
+
+open TTGen.C18_Callers in
+/-- non-vacuity: there are call sites that rewrite the checkpoint file -/
+example : ∃ c ∈ callSites, c.sameFile = true := by decide
 
 end TTProps.C18
